@@ -54,7 +54,10 @@ class Ed25519Key(PKey):
                 key_type=self.name,
                 cert_type="ssh-ed25519-cert-v01@openssh.com",
             )
-            verifying_key = nacl.signing.VerifyKey(msg.get_binary())
+            try:
+                verifying_key = nacl.signing.VerifyKey(msg.get_binary())
+            except ValueError:
+                raise SSHException("Invalid public key")
         elif filename is not None:
             with open(filename, "r") as f:
                 pkformat, data = self._read_private_key("OPENSSH", f)
